@@ -196,6 +196,41 @@ func ModelFor(fr *FuncResult, o *Obligation, so SolveOptions) (string, string) {
 	script = strings.Replace(script, "(check-sat)\n(pop 1)", "(check-sat)\n(get-model)\n(pop 1)", 1)
 	f := filepath.Join(so.WorkDir, sanitize(fr.Func)+fmt.Sprintf(".model%d.smt2", o.Index))
 	os.WriteFile(f, []byte(script), 0o644)
+	// ground variant: quantified assumptions dropped (enlarges the model space;
+	// such a model is only a candidate and must be confirmed by replay)
+	var gb strings.Builder
+	for _, ln := range strings.Split(script, "\n") {
+		if strings.HasPrefix(ln, "(assert") && (strings.Contains(ln, "(forall ") || strings.Contains(ln, "(exists ")) && !strings.Contains(ln, o.Assert) {
+			continue
+		}
+		gb.WriteString(ln)
+		gb.WriteByte('\n')
+	}
+	gf := filepath.Join(so.WorkDir, sanitize(fr.Func)+fmt.Sprintf(".gmodel%d.smt2", o.Index))
+	os.WriteFile(gf, []byte(gb.String()), 0o644)
+	for pass, file := range []string{f, gf} {
+		_ = pass
+		for _, s := range Solvers[:1] {
+			args := s.Cmd(file, 3000)
+			ctx, cancel := context.WithTimeout(context.Background(), 8*time.Second)
+			cmd := exec.CommandContext(ctx, args[0], args[1:]...)
+			var out bytes.Buffer
+			cmd.Stdout = &out
+			cmd.Run()
+			cancel()
+			txt := out.String()
+			if strings.HasPrefix(strings.TrimSpace(txt), "sat") {
+				if file == gf {
+					return txt, s.Name + " (ground variant: quantified assumptions dropped)"
+				}
+				return txt, s.Name
+			}
+		}
+	}
+	return "", ""
+}
+
+func modelForOld(fr *FuncResult, o *Obligation, so SolveOptions, f string) (string, string) {
 	for _, s := range Solvers {
 		args := s.Cmd(f, so.TimeoutMs)
 		if s.Name == "cvc5-1.0" {
